@@ -4735,6 +4735,11 @@ def env10(ctx):
                     in_then = p["then"] is child or any(y is child for y in hirq.walk(p["then"]))
                     if (neg and in_else) or (not neg and in_then):
                         why = "no match"
+            if p.get("e") == "match" and why is None and hirq.strip(p["scrut"]).get("local") == next_name:
+                # `match next { Some(ci) => .., None => break }`
+                for arm in p["arms"]:
+                    if (arm["body"] is child or any(y is child for y in hirq.walk(arm["body"]))) and [q.get("path") for q in hirq.flat_pats(arm["pat"])] == ["core::option::Option::None"]:
+                        why = "no next position"
             if p.get("e") == "block" and why is None:
                 # `if let Some(ci) = next { cur = ci; continue; }  break;` -- the exit follows the test in the same block
                 items = list(p.get("stmts", [])) + ([p["tail"]] if p.get("tail") is not None else [])
